@@ -3,7 +3,11 @@
 // solve() returns true, the complete solution it exposes (truth values, arithmetic values, object domains, atoms with
 // their parameters, flaws / resolvers / causal links, extracted timelines). Validated by spec/PlanTrace.tla.
 //
-//   plan_driver <out.ndjson> <timeout_s> <name> <file.rddl>...
+//   plan_driver <out.ndjson> <timeout_s> <name> <file.rddl>... [--then <file.rddl>...]...
+//
+// With --then the problem is given incrementally: the files before it are read and solved (verdict and solution are
+// recorded), the solver is taken back to root level (as the repository's own incremental client does), then the next
+// group is read into the same solver and solved again, and so on.
 //
 // Needs a build with BUILD_LISTENERS (configuration dbg_exec / rel_exec) for the causal graph; without it the flaws
 // section is empty.
@@ -234,7 +238,7 @@ static std::string reid(const vj::val &v, const std::string &key = "")
     {
         std::string s = "[";
         for (size_t i = 0; i < v.arr.size(); ++i)
-            s += (i ? "," : "") + reid(v.arr[i], key == "atoms" ? "atoms_elem" : "");
+            s += (i ? "," : "") + reid(v.arr[i], (key == "atoms" || key == "values") ? "atoms_elem" : "");
         return s + "]";
     }
     case vj::val::OBJ:
@@ -479,6 +483,8 @@ static void dump_solution(solver &s, double secs)
                        ",\"items\":" + join(item_descs) + ",\"objects\":" + join(objects) + ",\"atoms\":" + join(atoms) + ",\"tops\":" + tops +
                        ",\"flaws\":" + join(jflaws) + ",\"resolvers\":" + join(jres) + ",\"links\":" + join(jlinks) +
                        ",\"timelines\":" + tls + "}";
+    if (g_wide && getenv("VERIF_WIDE_DEBUG"))
+        fprintf(stderr, "%s\n", line.c_str());
     if (g_wide)
         emit_event("wide");
     else
@@ -619,6 +625,7 @@ int main(int argc, char **argv)
     const int timeout_s = atoi(argv[2]);
     g_name = argv[3];
     std::vector<std::string> files;
+    std::vector<std::vector<std::string>> more; // the groups of files read after the first solve (incremental use)
     bool exec_mode = false;
     unsigned x_seed = 1;
     int x_pds = 0, x_pde = 0, x_pf = 0, x_ticks = 30;
@@ -633,6 +640,10 @@ int main(int argc, char **argv)
             x_ticks = atoi(argv[i + 5]);
             i += 5;
         }
+        else if (!strcmp(argv[i], "--then"))
+            more.emplace_back();
+        else if (!more.empty())
+            more.back().push_back(argv[i]);
         else
             files.push_back(argv[i]);
     (void)exec_mode; (void)x_seed; (void)x_pds; (void)x_pde; (void)x_pf; (void)x_ticks;
@@ -665,6 +676,22 @@ int main(int argc, char **argv)
             s.read(files);
             g_phase = "solve";
             verdict = s.solve() ? "solved" : "unsolvable";
+            for (size_t step = 0; step < more.size() && verdict == "solved"; ++step)
+            { // incremental use: the solution so far is recorded, then more of the problem is read
+                const double secs0 = std::chrono::duration<double>(std::chrono::steady_clock::now() - t0).count();
+                emit_event("verdict", ",\"verdict\":\"solved\",\"step\":" + std::to_string(step) + ",\"ms\":" + std::to_string((long)(secs0 * 1000)) + ",\"n\":" + std::to_string(g_nt.n_sat) + ",\"clauses\":" + std::to_string(g_nt.clauses.size()) + ",\"learnts\":" + std::to_string(g_nt.learnts.size()));
+#ifdef BUILD_LISTENERS
+                dump_solution(s, gl, secs0);
+#else
+                dump_solution(s, secs0);
+#endif
+                g_phase = "read";
+                while (!s.root_level()) // the protocol of the repository's own incremental client (executor/ros/deliberative_executor.cpp)
+                    s.get_sat_core().pop();
+                s.read(more[step]);
+                g_phase = "solve";
+                verdict = s.solve() ? "solved" : "unsolvable";
+            }
         }
         catch (const unsolvable_exception &)
         {
